@@ -183,6 +183,94 @@ theorem second_request_is_a_hit (src : Src) (f : Nat) (k : Kind) (r n : Nat) (st
   | ref => simp [cloneRef, hl]
   | rc => exact absurd rfl hk
 
+/-! ## Pages in the page tree: inherited attributes, the two entry points (`clone_page`, `from_page`) -/
+
+/-- the state after importing a sequence of pages given with their place in the page tree -/
+def afterT (f : Nat) (src : Src) (n : Nat) (pages : List PageT) : St := (clonePagesT f src pages (St.init n)).2
+
+/-- Importing pages of the tree reaches only states that satisfy the invariant: closure, single copy and
+    equality of the copied graph hold for them exactly as for `after`. -/
+theorem tree_pages_closed_once_iso (src : Src) (f n : Nat) (pages : List PageT) :
+    Closed (afterT f src n pages) ∧ Once (afterT f src n pages) ∧ Iso src (afterT f src n pages) := by
+  have h := (clonePagesT_spec src f pages _ (Inv.init src n)).1
+  exact ⟨h.closed, h.once, h.iso⟩
+
+/-- **C20, boxes and resources of a page in the tree** (`clone_page`). When the import of a page succeeds after
+    any history, the new page's own /MediaBox is the entry of the nearest node (page, parent, grand-parent, …)
+    that has one, its /CropBox likewise and the media box if no node has one, its /TrimBox the page's own; its
+    resources are the pruned copy (`PageOK`: per category *and* name — the same name in two categories is two
+    entries) of the nearest /Resources dictionary, taken whole. -/
+theorem tree_page_attributes (src : Src) (f n : Nat) (before : List PageT) (pt : PageT) (out : PageOutT)
+    (hok : (clonePageT f src pt (afterT f src n before)).1 = .ok out) :
+    PageTOK pt out (clonePageT f src pt (afterT f src n before)).2 :=
+  (clonePageT_spec src f pt _ (clonePagesT_spec src f before _ (Inv.init src n)).1).2.2 out hok
+
+/-- `nearest` is "the first entry on the way up": the chosen value is an entry of the chain and every
+    node below it has none. -/
+theorem nearest_is_first {α : Type} (c : List (Option α)) (v : α) (h : nearest c = some v) :
+    ∃ i : Nat, c[i]? = some (some v) ∧ ∀ j : Nat, j < i → c[j]? = some none :=
+  nearest_spec c v h
+
+/-- **The other entry point** (`from_page`): same effective boxes; the effective resource dictionary whole
+    (minus the category the typed `Resources` has no field for). -/
+theorem from_page_attributes (pt : PageT) (out : FromOut) (hok : fromPageT pt = .ok out) :
+    nearest pt.media = some out.media ∧ out.crop = (nearest pt.crop).getD out.media ∧ out.trim = pt.trim ∧
+    out.rotate = pt.ownRotate ∧ ∃ r, nearest pt.resChain = some r ∧ out.res = typedRes r := by
+  simp only [fromPageT] at hok
+  cases hm : nearest pt.media with
+  | none => simp [hm] at hok
+  | some m =>
+    cases hr : nearest pt.resChain with
+    | none => simp [hm, hr] at hok
+    | some r =>
+      simp only [hm, hr, Out.ok.injEq] at hok
+      subst hok
+      exact ⟨rfl, rfl, rfl, rfl, r, rfl, rfl⟩
+
+/-- `clone_page` never panics on a page of the tree either. -/
+theorem tree_import_never_panics (src : Src) (f : Nat) (pt : PageT) (st : St) : (clonePageT f src pt st).1 ≠ .panic :=
+  clonePageT_ne_panic src f pt st
+
+/-- The rotation clause as the property states it: the new page has the source page's rotation, i.e. the
+    /Rotate of the nearest node that has one (0 if none). -/
+def C20_rotate_full : Prop :=
+  ∀ (src : Src) (f n : Nat) (before : List PageT) (pt : PageT) (out : PageOutT),
+    (clonePageT f src pt (afterT f src n before)).1 = .ok out → out.rotate = (nearest pt.rotate).getD 0
+
+/-- proved part: the page has its own /Rotate, or no ancestor has one -/
+theorem C20_rotate_partial (src : Src) (f n : Nat) (before : List PageT) (pt : PageT) (out : PageOutT)
+    (hok : (clonePageT f src pt (afterT f src n before)).1 = .ok out)
+    (hown : (pt.rotate.head?.join).isSome = true ∨ nearest pt.rotate = none) :
+    out.rotate = (nearest pt.rotate).getD 0 := by
+  have h := (tree_page_attributes src f n before pt out hok).rotate
+  rw [h]
+  simp only [PageT.ownRotate]
+  cases hc : pt.rotate with
+  | nil => rfl
+  | cons x c =>
+    cases x with
+    | some v => rfl
+    | none =>
+      rw [hc] at hown
+      rcases hown with h1 | h1
+      · simp at h1
+      · rw [h1]; rfl
+
+/-- **open**: the library reads only the page's own /Rotate (`PageTree` has no such field): a page below a
+    /Pages node with /Rotate 90 is imported unrotated. -/
+theorem C20_rotate_counterexample : ¬ C20_rotate_full := by
+  intro h
+  have := h (srcOf []) 1 0 [] ⟨[], [some []], [some 1], [none], none, [none, some 90], []⟩
+    ⟨[], [], 1, 1, none, 0⟩ (by decide)
+  simp [nearest] at this
+
+/-- non-vacuity: a page that takes everything from its grand-parent, with one name in two categories -/
+example : clonePageT 5 (srcOf [(1, ⟨7, [], []⟩), (2, ⟨8, [], []⟩)])
+      ⟨[.use .xobject 1, .use .font 1, .use .xobject 1], [none, none, some [((.font, 1), ⟨0, [⟨.prim, 1⟩]⟩), ((.xobject, 1), ⟨0, [⟨.ref, 2⟩]⟩)]],
+        [none, none, some 3], [none, some 44, some 45], some 81, [some 90, none, some 180], []⟩ (St.init 0) =
+    (.ok ⟨[((.font, 1), (0, [1])), ((.xobject, 1), (0, [0]))], [], 3, 44, some 81, 90⟩,
+      ⟨[(1, 1), (2, 0)], [], [], 2, [⟨1, 7, []⟩, ⟨0, 8, []⟩]⟩) := by decide
+
 /-! ## Regressions: the code before the repairs -/
 
 /-- **D41** (fixed). Before the cycle guard, an object whose first reference leads back to itself made
